@@ -18,7 +18,7 @@ RULE = ('(a) every element class created with xsd_check=False: seeded child sequ
         'unchecked parent must still refuse a foreign child and refuse its own to_string while incomplete; a checked, '
         'complete parent with an unchecked child holding arbitrary grandchildren must serialise (the unchecked node is '
         'exempt), and a checked, incomplete node BELOW an unchecked node below a checked root makes the root refuse until it is '
-        'completed. (a) includes one run of 300 children per class with replacement and removal at positions >= 257. non-trivial = a sequence with at least one child; distinct by (class, sequence)')
+        'completed. (e) an unchecked score-partwise holding a checked, possibly incomplete element of the class is written by write() (both flags) exactly as to_string() returns it. Replaced and removed children of unchecked elements must report no parent. (a) includes one run of 300 children per class with replacement and removal at positions >= 257. non-trivial = a sequence with at least one child; distinct by (class, sequence)')
 ASSUMPTIONS = ['structural reasons = any exception from add_child / remove / replace_child / to_string on an unchecked element',
                'children are minimal unchecked instances unless stated']
 TIMEOUT = {'quick': 600, 'thorough': 2400}
@@ -95,13 +95,17 @@ def run_shard(shard, tier, seed):
                 if r[0] == 'exc':
                     v('unchecked-replace-raises', t, case, {'msg': str(r[1])[:100]}, {'exc': type(r[1]).__name__})
                 else:
+                    if kids[i].get_parent() is not None or kids[i].up is not None:
+                        v('unchecked-replaced-child-keeps-parent', t, case, {'child': kids[i].name})
                     kids[i] = new
                 j = rnd.randrange(len(kids)) if len(kids) < 260 else rnd.randrange(257, len(kids))
                 r = lib.call(e.remove, kids[j])
                 if r[0] == 'exc':
                     v('unchecked-remove-raises', t, case, {'msg': str(r[1])[:100]}, {'exc': type(r[1]).__name__})
                 else:
-                    kids.pop(j)
+                    gone = kids.pop(j)
+                    if gone.get_parent() is not None or gone.up is not None:
+                        v('unchecked-removed-child-keeps-parent', t, case, {'child': gone.name})
                 r = lib.call(e.to_string)
                 if r[0] == 'exc':
                     v('unchecked-to-string-raises', t, case, {'msg': str(r[1])[:100]}, {'exc': type(r[1]).__name__})
@@ -153,6 +157,36 @@ def run_shard(shard, tier, seed):
                         if k not in P.get_children(True):
                             v('removal-from-unchecked-parent-changes-another-element', t, case)
                 c['children_with_history'] += 1
+        # ---------------- (e) an unchecked score-partwise holding this element (checked, possibly incomplete) is written by
+        # write() exactly as to_string() returns it: the other public way out must not bring the checks back
+        if shard['slice'] == sorted(lib.CLASSES).index(cn) % NSHARDS and rnd.random() < (0.25 if tier == 'quick' else 1.0):
+            import os
+            import tempfile
+            S = lib.CLASSES['XMLScorePartwise'](xsd_check=False)
+            inner = lib.call(lambda: lib.make(cls, check=True))
+            if inner[0] == 'ok':
+                S.add_child(inner[1])
+                evals += 1
+                nontriv += 1
+                fd, path = tempfile.mkstemp(prefix='mxverif-c18-', suffix='.xml')
+                os.close(fd)
+                try:
+                    for ic in (False, True):
+                        rs = lib.call(S.to_string, ic)
+                        rw = lib.call(S.write, path, ic) if ic else lib.call(S.write, path)
+                        if rs[0] == 'exc':
+                            v('unchecked-to-string-raises', t, {'cls': cn, 'part': 'e', 'ic': ic}, {'msg': str(rs[1])[:100]},
+                              {'exc': type(rs[1]).__name__})
+                        elif rw[0] == 'exc':
+                            v('unchecked-write-raises', t, {'cls': cn, 'part': 'e', 'ic': ic}, {'msg': str(rw[1])[:100]},
+                              {'exc': type(rw[1]).__name__})
+                        else:
+                            data = open(path, 'rb').read().decode('utf-8')
+                            if not data.endswith(rs[1]):
+                                v('unchecked-write-differs-from-to-string', t, {'cls': cn, 'part': 'e', 'ic': ic})
+                        c['unchecked_scores_written'] += 1
+                finally:
+                    os.unlink(path)
         if t not in ref.DFAS or lib.TYPES.get(t) is not cls:
             continue
         d = ref.DFAS[t]
